@@ -74,12 +74,14 @@ def run(tier):
     sims = [] if quick else [("MC_TreeHash.tla", "MC_TreeHash_dag5sim.cfg", 500, 16)]
     paths = []
     replayed = 0
+    # the case cache is keyed by the MC module + cfg (+ spec/lib); the machine itself lives in TreeHashCache.tla
+    machine = hashlib.sha256(open(vlib.find_spec("TreeHashCache.tla"), "rb").read()).hexdigest()[:16]
     for spec, cfg, frac, *sim in runs + [(a, b, 1.0, c, d) for a, b, c, d in sims]:
         if sim:
             # random walks through the 5-pair DAGs: TLC checks the same invariants on every visited state
-            cases, meta = gen_cases(spec, cfg, workers=6, timeout=2400, simulate=sim[0], depth=sim[1], seed=17)
+            cases, meta = gen_cases(spec, cfg, workers=6, timeout=2400, simulate=sim[0], depth=sim[1], seed=17, key_extra=machine)
         else:
-            cases, meta = gen_cases(spec, cfg, workers=6, timeout=2400)
+            cases, meta = gen_cases(spec, cfg, workers=6, timeout=2400, key_extra=machine)
         chk.states += meta["distinct"]
         chk.transitions += meta["generated"]
         chk.extra.setdefault("model_runs", {})[cfg] = meta
